@@ -91,6 +91,14 @@ class Ctx(object):
         self.run.fault('restart')
         self.trace.append('<Session closed; new Session on the same mount>')
 
+    def resume(self):
+        """Suspend the session with its files open, close it, resume from the state file."""
+        from ..basicdrv import suspend_resume
+        self.fs.disarm()
+        self.d = suspend_resume(self.d, os.path.join(os.path.dirname(self.root), 'files.state'))
+        self.run.fault('suspend-resume')
+        self.trace.append('<Session suspended, closed and resumed with its files open>')
+
     def x(self, line, label=None):
         """Execute a statement; remember which injected faults fired in it."""
         n0 = len(self.fs.fired)
@@ -343,6 +351,11 @@ class Seq(Base):
             if self.run.stop:
                 return
             self.op_close({'n': n})
+
+    def op_resume(self, op):
+        # open files stay open across suspend/resume; the model is unchanged
+        self.cx.resume()
+        self.run.state('C24', 'resume', len(self.h))
 
     def op_restart(self, op):
         self.cx.restart()
@@ -1450,6 +1463,9 @@ def gen24(rng, tier):
         if r < 0.025:
             ops.append({'op': 'restart'})
             opened = {}
+            continue
+        if opened and rng.random() < 0.04:
+            ops.append({'op': 'resume'})
             continue
         if not opened or r < 0.16:
             n = rng.randint(1, maxf) if rng.random() < 0.93 else maxf + 1
